@@ -227,26 +227,15 @@ theorem lexstep_string (v stop : Cps) (h : (match v with
       exact CssVerif.Tok.valueOf_string _ q r.dropLast hb hq92
 
 theorem lexstep_comment (v stop : Cps) (h : (match v with
-      | 47 :: 42 :: r => r.drop (r.length - 2) == [42, 47] && (r.take (r.length - 2)).all (· != 42)
+      | 47 :: 42 :: r => cmTail r
       | _ => false) = true) : Step ⟨.comment, v⟩ stop := by
   split at h
   · rename_i r
-    simp only [Bool.and_eq_true, beq_iff_eq, List.all_eq_true, bne_iff_ne, ne_eq] at h
-    obtain ⟨hend, hbody⟩ := h
-    have hr : r = r.take (r.length - 2) ++ [42, 47] := by
-      rw [← hend, List.take_append_drop]
-    have hv : (47 :: 42 :: r) = 47 :: 42 :: r.take (r.length - 2) ++ 42 :: 47 :: [] := by
-      simp only [List.cons_append]; rw [← hr]
     apply lexstep_of _ stop "COMMENT" rfl (by simp)
     · intro c' t e; simp only [List.cons.injEq] at e; obtain ⟨rfl, _⟩ := e; decide
-    · show CssVerif.Tok.scan false true ((47 :: 42 :: r) ++ stop) productions = .hit "COMMENT" (47 :: 42 :: r).length
-      have := CssVerif.Tok.scan_comment_plain true (r.take (r.length - 2)) stop hbody
-      have hl : (47 :: 42 :: r).length = (r.take (r.length - 2)).length + 4 := by
-        conv => lhs; rw [hv]
-        simp
-      rw [hl]
-      conv => lhs; rw [hv]
-      simpa [List.append_assoc] using this
+    · have := CssVerif.Tok.scan_comment_gen true r stop h
+      simp only [List.length_cons] at this ⊢
+      exact this
     · exact CssVerif.Tok.valueOf_plain _ _ _ (by decide) (by decide)
   · cases h
 
